@@ -57,7 +57,7 @@ func (id *shsIdent) getCred(v cert.Version) *Credential { return id.creds[v] }
 // acceptable is the ground truth of the trust rule for this identity at time t.
 func (id *shsIdent) acceptable(t time.Time, v cert.Version) bool {
 	c := id.certs[v]
-	if c == nil || !id.trusted || id.blocked || id.kind == "thief" || id.kind == "impostor" {
+	if c == nil || !id.trusted || id.blocked || id.kind == "thief" || id.kind == "impostor" || id.kind == "garbler" {
 		return false
 	}
 	if c.Expired(t) || id.issuer.Expired(t) {
@@ -249,6 +249,24 @@ func runSHS(rc *sk.RunCtx, focus string) {
 			id.creds[v] = NewCredential(fakePubCert{c, pub}, victim.creds[v].Bytes, priv, w.suite)
 		}
 		w.ids = append(w.ids, id)
+	}
+	if tp.Chance(1, 2) {
+		// the garbler: a key pair of its own and a certificate field that does not decode (random bytes, or a
+		// truncated / extended copy of its real encoding). Its noise messages are perfectly valid: the peer's noise
+		// state advances before the certificate is looked at, so the rejection has to be final for that machine.
+		id := mk("garbler", "garbler", ca, caKey, ok0, ok1, pickV())
+		id.trusted = true
+		for v, cr := range id.creds {
+			b := append([]byte(nil), cr.Bytes...)
+			// (extensions and bit flips, which may still decode to the signed content, are the C02 mutations' business)
+			if tp.Chance(1, 2) {
+				b = make([]byte, 1+tp.Choose(120))
+				tp.Bytes(b)
+			} else {
+				b = b[:tp.Choose(len(b))]
+			}
+			id.creds[v] = NewCredential(id.certs[v], b, cr.privateKey, w.suite)
+		}
 	}
 	if tp.Chance(1, 2) {
 		// the impostor: presents the first honest identity's certificate AND its public key as the Noise static key,
@@ -848,6 +866,10 @@ func (w *shsWorld) feed(in *shsInit, data []byte, kind string, from *shsResp) {
 	if genuineHere {
 		// the genuine reply was refused: legitimate only if the responder's identity is not acceptable (fatal by design)
 		okPeer := from.id.acceptable(time.Now(), from.res.MyCert.Version())
+		if !okPeer && !in.m.Failed() {
+			// refused, and the machine says it is still usable: a later genuine reply has to work (C07)
+			in.rejected = append(in.rejected, fmt.Sprintf("reply of %s len=%d (%v)", from.id.kind, len(data), err))
+		}
 		if okPeer {
 			why := "no rejected message before it"
 			if len(in.rejected) > 0 {
